@@ -214,6 +214,10 @@ fn gen_c_obj(rng: &mut Rng, kind: u64) -> Value {
     Some(Value::Null) if kind == 2 => {
       m.insert("r".into(), json!([]));
     }
+    // a required (non-nullable) child may not contain null elements either
+    Some(Value::Array(a)) if kind == 2 => {
+      m.insert("r".into(), Value::Array(a.into_iter().filter(|x| !x.is_null()).collect()));
+    }
     Some(r) => {
       m.insert("r".into(), r);
     }
@@ -400,12 +404,15 @@ impl Prop for C04 {
       let h = *rng.pick(&alive);
       let id = format!("d{}", rng.below(6));
       let r = rng.below(100);
-      if r < 8 {
-        if alive.len() < max_alive {
-          calls.push(json!({"op": "new", "h": next_h}));
-          alive.push(next_h);
-          next_h += 1;
+      if r < 10 {
+        // a further handle (it replays the shared log); at the limit one handle is dropped first
+        if alive.len() >= max_alive {
+          calls.push(json!({"op": "drop", "h": h}));
+          alive.retain(|x| *x != h);
         }
+        calls.push(json!({"op": "new", "h": next_h}));
+        alive.push(next_h);
+        next_h += 1;
       } else if r < 45 {
         version += 1;
         let doc = if uniform {
